@@ -30,6 +30,12 @@ func build(tier string) []*explore.Scenario {
 			scs = append(scs, hlib.WriteScenario(hlib.WParams{Cfg: cfg, Writers: mix, Bound: b3, Cache: true}, hlib.CheckOrder))
 		}
 	}
+	if tier == "thorough" {
+		// three writers with two calls each (sharded)
+		for _, cfg := range []hlib.ChanCfg{{1, true}, {2, true}, {2, false}} {
+			scs = append(scs, hlib.WriteScenario(hlib.WParams{Cfg: cfg, Writers: hlib.Mixes(3, 2)[1], Bound: 2, Cache: true, Shards: 8, Tag: "3x2"}, hlib.CheckOrder))
+		}
+	}
 	// size sweep: boundary sizes through every entry point (deviation bound 1)
 	sizes := []int{0, 1, 1023, 1024, 1025, 2047, 2048, 2049, 4096, 65535, 65536, 65537, 131072}
 	eps := []hlib.EP{hlib.Write1, hlib.Writev, hlib.CtxWrite1, hlib.CtxWritev, hlib.WriterWrite}
